@@ -48,7 +48,9 @@ Op mkop19(const char *k, int a = 0, int b = 0, int c = 0, int d = 0, const std::
 
 const char *const kPayloads19[] = { "alpha", "beta", "gamma xx", "delta  spaced", "UPPER a", "zeta",
                                     "eta %d %s {x}", "iota \xc3\xbc\xc3\xb1\xc3\xaf", "a", "xx end a",
-                                    "hl \033[1mbold\033[0m and \033[38;5;208morange\033[0m a" };
+                                    "hl \033[1mbold\033[0m and \033[38;5;208morange\033[0m a",
+                                    // control sequences that are not colour codes: they belong to the text
+                                    "prog \033[2K[##  ] 50% \033[1A 3 items remain a" };
 
 Op gen_log19(sim::Rng &r, bool big_ok)
 {
@@ -57,7 +59,7 @@ Op gen_log19(sim::Rng &r, bool big_ok)
     int cat = r.chance(2, 5) ? 0 : (int)r.below(kNumCategories);
     int file = 1 + (int)r.below(kNumFiles - 1);
     int func = 1 + (int)r.below(kNumFunctions - 1);
-    Op o = mkop19("log", type, cat, file | (func << 8), (int)r.below(2000), kPayloads19[r.below(11)]);
+    Op o = mkop19("log", type, cat, file | (func << 8), (int)r.below(2000), kPayloads19[r.below(12)]);
     if (big_ok && r.chance(1, 6))
         o.e = (int)r.range(40, 300);
     return o;
